@@ -213,7 +213,9 @@ def _between_doc_and_cmd(lay, ind):
     if k == 3:
         return ind + BRACKET_CMT[lay.pick(len(BRACKET_CMT))] + "\n"
     if k == 4:
-        return "\n\n" + ind + "# ZZCMT between doc and command\n"
+        # also: a definition that was commented out line by line
+        return "\n\n" + ind + "# ZZCMT between doc and command\n" + ind + "# function(ZZCMT_old a b)\n" + ind + "#   message(x)\n" + \
+            ind + "# endfunction()\n"
     return " \n"
 
 
